@@ -356,6 +356,7 @@ impl Property for C17 {
                     Mode::Split => ctx.hit("include_split"),
                     Mode::Before => {}
                 }
+                ctx.begin(|| json!({"kind": "matching", "entries": combo.iter().map(|&k| keys[k].join(".")).collect::<Vec<_>>(), "mode": format!("{mode:?}")}));
                 match check(&keys, combo, mode) {
                     Ok(o) => {
                         ctx.outcome(o);
@@ -392,6 +393,7 @@ impl Property for C17 {
                 ctx.out.states += 1;
                 ctx.out.transitions += seq.len() as u64;
                 ctx.hit("type_sequences");
+                ctx.begin(|| json!({"kind": "types", "yaml": yaml, "accesses": seq.iter().map(|a| format!("{a:?}")).collect::<Vec<_>>()}));
                 match check_types(yaml, &seq) {
                     Ok(o) => ctx.outcome(o),
                     Err(d) => ctx.violation(
